@@ -915,6 +915,8 @@ class Stepper(Machine):
             st = self.put_th(st, who, t)
         elif call is not None:
             c = self.classify(call, fr, st)
+            if n.kind == "with" and (dotted(call.func) or "").split(".")[-1] in ("ExitStack", "AsyncExitStack"):
+                raise AnalysisError(f"{self.loc(fr)}: an ExitStack whose callbacks the front end could not read as try/finally; what runs when the block is left is not modelled")
             if n.kind == "with" and c[0] != "inline" and any(isinstance(t_, FuncInfo) for t_ in self.prog.resolve_call(self.func(fr.fq), call)):
                 raise AnalysisError(f"{self.loc(fr)}: the context manager of this `with` is repository code that is not a generator-based manager; its enter/exit effects are not modelled")
             if c[0] == "inline":
